@@ -189,6 +189,30 @@ def gen_cases(rng, tier):
         h = ['t3'] + pre + ['d30', 't5', 'u30', 't30', 'u31', 'u32', 't600']
         cases.append({'id': 'c10-active-%d' % i, 'cfg': cfg, 'hist': h, 'sub': 'ksim', 'active': active, 'mech': mech,
                       'tags': {'kind': 'active-key-by-' + mech, 'form': form}})
+    # (input real K): K is active while it is physically held, whatever its action is (key, custom action, layer, macro); a position
+    # whose action leaves no state behind (XX) is not visible to kanata as held and is not judged
+    j = 0
+    for kind, act in [('key', 'b'), ('mouse-button', 'mlft'), ('layer', '(layer-while-held l0)'), ('repeating-macro', '(macro-repeat z 50)'),
+                      ('wheel', '(mwheel-up 50 120)'), ('unmod', '(unmod c)'), ('tap-hold', '(tap-hold 0 20 c d)'),
+                      ('one-shot', '(one-shot 500 lalt)'), ('caps-word', '(caps-word 500)')]:
+        for held in (True, False):
+            if kind == 'one-shot' and not held:
+                continue          # a tapped one-shot key keeps its state, at its position, until the one-shot ends: not judged
+            cfg = '(defsrc a s d)\n(deflayer l0 (switch ((input real s)) y break () x break) %s n)' % act
+            h = ['t3'] + (['d31', 't40'] if held else ['d31', 't10', 'u31', 't30']) + ['d30', 't5', 'u30', 't30', 'u31', 't600']
+            cases.append({'id': 'c10-inputreal-%d' % j, 'cfg': cfg, 'hist': h, 'sub': 'ksim', 'active': held, 'mech': 'input-real-' + kind,
+                          'tags': {'kind': 'input-real-by-' + kind, 'form': 'switch'}})
+            j += 1
+    # key-timing on an older key after many keys have been typed (the history keeps 8; every entry ages, also after the ring has wrapped)
+    for n in range(1, 21):
+        for R in (1, 2, 3, 8):
+            cfg = ('(defsrc a s d)\n(deflayer l0 (switch ((key-timing %d gt 500)) y break ((key-timing %d lt 500)) x break () z break) b c)' % (R, R))
+            h = ['t3']
+            for q in range(n):
+                k = (31, 32)[q % 2]
+                h += ['d%d' % k, 't4', 'u%d' % k, 't6']
+            h += ['t%d' % rng.choice([300, 1000]), 'd30', 't5', 'u30', 't50']
+            cases.append({'id': 'c10-ktdepth-%d-%d' % (n, R), 'cfg': cfg, 'hist': h, 'sub': 'ksim', 'tags': {'kind': 'key-timing-after-n-keys', 'n': n}})
     # key-timing thresholds and the processing loop: the loop may not sleep before the largest threshold of the configuration has
     # passed since the last key (the key-history clock only runs with ticks); thresholds in both orders, gaps around them
     from checks.common import loop_pairs
